@@ -23,6 +23,6 @@ def check(ctx):
     ctx.rule("C04.M4", "first regular state call after a stop: tm is exactly 0")
     ctx.rule("C04.M5", "if only engage() is called and no timer fires, the first state run is the one current_state named")
     res = smcommon.run_universes(ctx, "StateMachine", owned=OWNED)
+    smcommon.report(ctx, res, OWNED)
     ctx.floor("universes", len(res), 4)
     ctx.floor("typestates", sum(r["states"] for r in res), 1000)
-    smcommon.report(ctx, res, OWNED)
